@@ -9,8 +9,8 @@
    way_apply / rel_apply : ApplyUpdatesUpTo     spec_node / spec_member : per-child ground truth
    AOk children pending | AErr index half-updated-children updates | APanic (negative index). *)
 From Coq Require Import ZArith List Bool Sorted Permutation Lia.
-From Verif Require Import C15.Model C15.Spec C15.Proofs C15.GenOk.
-From VerifGen Require Import GenUpdates.
+From Verif Require Import C15.Model C15.Spec C15.Proofs C15.GenOk C15.GenOkGroup.
+From VerifGen Require Import GenUpdates GenGroup.
 Import ListNotations.
 Open Scope Z_scope.
 
@@ -246,7 +246,7 @@ Print Assumptions C15_generated_code_is_model.
    (the whole loop with the notApplied slice and the error return), Way.LineString and
    Way.LineStringAt (three loops, the last an in-place compaction).  The two sorts are
    sort.Sort on the two Less types.  With C15_generated_code_is_model every function the
-   theorems above talk about — except the consumer mputil.Group — is regenerated from source. *)
+   theorems above talk about is regenerated from source (the consumer mputil.Group: next theorem). *)
 Theorem C15_generated_loops_are_model :
   (forall ns us t, gen_way_apply_updates_up_to ns us t = way_apply t ns us) /\
   (forall ms us t, gen_rel_apply_updates_up_to ms us t = rel_apply t ms us) /\
@@ -258,6 +258,12 @@ Proof.
   split; [exact gen_way_line_string_ok|]. split; [exact gen_way_line_string_at_ok|exact gen_sort_calls].
 Qed.
 Print Assumptions C15_generated_loops_are_model.
+
+(* the consumer too: internal/mputil.Group as regenerated from source is the model's [group]
+   (member type and roles interned as the harness does, the ways map as an association list) *)
+Theorem C15_generated_group_is_model : forall ws ms at_, gen_group ws ms at_ = group ms ws at_.
+Proof. exact gen_group_ok. Qed.
+Print Assumptions C15_generated_group_is_model.
 
 Theorem C15_loop_iteration_is_generated_apply_update :
   (forall t u r ns pend,
